@@ -1,7 +1,7 @@
 (* C13  Primary keys identify items faithfully and are enforced. *)
 From Coq Require Import List Bool Strings.String.
-From Minidyn Require Import Base.Str Base.FMap Base.Outcome Model.Value Model.Key.
-From Minidyn Require Import Proofs.KeyFacts.
+From Minidyn Require Import Base.Str Base.FMap Base.Outcome Model.Value Model.Key Model.Index Model.Table Model.Client.
+From Minidyn Require Import Proofs.KeyFacts Proofs.TableInv Proofs.ClientInv Proofs.KeyInv.
 Import ListNotations.
 
 Theorem C13_key_injective_hash_only :
@@ -31,3 +31,18 @@ Theorem C13_key_collision_refuted :
     lookup (hashk ks) it1 <> lookup (hashk ks) it2 /\ key_value ks defs it1 = key_value ks defs it2 /\
     exists k, key_value ks defs it1 = inr k.
 Proof. exact key_collision_refuted. Qed.
+
+(* the key attributes of a stored item equal the key under which it is retrievable, in every state reachable by a
+   history (any interpreter, both SDKs) in which no UpdateItem changes a key attribute (UK; an update that does is the
+   known finding C13-2) and UpdateTable does not re-type the key attributes (EK) *)
+Theorem C13_stored_under_own_key_reachable :
+  forall lm lu sdk ops cn tn c t,
+    run_env EK (UK lu) lm lu sdk [] ops ->
+    lookup cn (fst (run lm lu sdk [] ops)) = Some c -> lookup tn (c_tables c) = Some t ->
+    TInv t /\ forall k it, lookup k (t_data t) = Some it -> get_key (t_ks t) (t_defs t) it = inr k.
+Proof. exact KInv_reachable. Qed.
+
+(* the key map of a request and the item it names have the same key string *)
+Theorem C13_key_item_same_key :
+  forall ks defs it, get_key ks defs (key_item ks it) = get_key ks defs it.
+Proof. exact get_key_key_item. Qed.
